@@ -345,7 +345,32 @@ fn x_c05(r: &DuoRun, _wm: &WireModel, _e: &EndInfo, o: &mut Outcome) {
     o.probe("zero-length-write", empties);
     o.probe("read-after-own-shutdown", halfclose);
 }
+/// the local Multiplexor handle is dropped on a healthy transport while a stream object survives and
+/// keeps reading: end-of-stream must still come only after everything the peer had sent
+fn gen_c05_drop(r: &mut Prng, _i: u64, _t: Tier) -> Plan {
+    let mut p = base_plan(r);
+    p.link.drop_after_close = false;
+    let x = r.below(2);
+    for _ in 0..(1 + r.below(2)) {
+        let mut s = gen_stream(r, &CLEAN);
+        let xs = if s.opener == x { 0 } else { 1 };
+        // the dropping side keeps its stream and reads to the end; the peer writes and finishes
+        s.sides[xs].hold = true;
+        s.sides[xs].r = vec![ROp::Yield(r.below(8)), ROp::ReadEof { buf: 1 + r.below(32) }];
+        s.sides[1 - xs].hold = true;
+        p.streams.push(s);
+    }
+    let span = *r.pick(&[15usize, 40, 100, 250]);
+    p.faults.push(Fault { at: r.below(span) as u64, kind: FaultKind::DropMux { ep: x } });
+    p
+}
 pub fn c05() -> Check {
+    let mut c = c05_base();
+    c.families.push(fam("local-drop", 200_000, 2_000_000, gen_c05_drop, OracleCfg::default(), Some(x_c05), nt_c05, "the local Multiplexor handle is dropped at a seeded scheduling round on a healthy transport while a stream object survives and reads to end-of-stream, the peer still writing and finishing: end-of-stream must come only after every byte the peer had put on the wire before it answered the Close."));
+    c.required_probes.push("read-to-eof-after-own-drop");
+    c
+}
+fn c05_base() -> Check {
     duo_check(
         "C05",
         "exploration",
